@@ -54,7 +54,7 @@ type RWMutex struct {
 
 func (m *RWMutex) Lock() {
 	if vsched.Active() {
-		vsched.PointLock(&m.m)
+		vsched.PointWLockRW(&m.m)
 	}
 	m.real.Lock()
 }
